@@ -640,7 +640,12 @@ class StorageBackend:
             )
 
         subruns = chunk_info.get("subruns", None)
-        if chunk_info["run_id"].startswith("_") and subruns is None:
+        if (
+            chunk_info["run_id"].startswith("_")
+            and subruns is None
+            and chunk_info["start"] != chunk_info["end"]
+        ):
+            # (A zero-duration chunk carries no subruns)
             raise ValueError(f"Superrun {chunk_info} has no subruns information!")
 
         chunk = strax.Chunk(
